@@ -93,15 +93,27 @@ def main():
         if not (out["suite_passes_with_change"] and out["demo_fails_with_change"] and out["demo_passes_without_change"]):
             print(o[-1500:]); print(o1[-2500:]); print(o2[-2500:])
             return 1
-    rc, o = sh("git status --porcelain", cwd="/repo")
-    assert o.strip() == "", "/repo not clean: " + o
-    rc, o = sh("git apply %s" % patch, cwd="/repo")
+    sandbox = "--sandbox" in sys.argv
+    if sandbox:
+        # a private copy of the repository (HEAD + the change) and of /verif (HEAD, pointed at that copy): several changes can be
+        # examined at the same time and /repo itself is never touched
+        sb = "/tmp/sb_%s_%s" % (prop, var)
+        sh("git -C /repo worktree remove --force %s/repo; git -C /verif worktree remove --force %s/verif; rm -rf %s" % (sb, sb, sb))
+        os.makedirs(sb)
+        rc, o = sh("git -C /repo worktree add --detach %s/repo HEAD && git -C /verif worktree add --detach %s/verif HEAD && cd %s/verif && tools/relocate.sh %s/repo" % (sb, sb, sb, sb))
+        assert rc == 0, o
+        repo_dir, verif_dir = sb + "/repo", sb + "/verif"
+    else:
+        repo_dir, verif_dir = "/repo", "/verif"
+        rc, o = sh("git status --porcelain", cwd="/repo")
+        assert o.strip() == "", "/repo not clean: " + o
+    rc, o = sh("git apply %s" % patch, cwd=repo_dir)
     assert rc == 0, o
     det = {}
     try:
         for c in checks:
             t = time.time()
-            rc, o = sh("./check %s --tier %s" % (c, tier), cwd="/verif")
+            rc, o = sh("./check %s --tier %s" % (c, tier), cwd=verif_dir)
             viol = [l for l in o.splitlines() if l.startswith("VIOLATION")]
             why = [l for l in o.splitlines() if l.startswith("  -> ")]
             det[c] = {"rc": rc, "violations": len(viol), "first": (why[0].strip()[:600] if why else None), "wall_s": round(time.time() - t)}
@@ -109,7 +121,10 @@ def main():
             if rc == 2:
                 print(o[-2500:])
     finally:
-        sh("git checkout -- .", cwd="/repo")
+        if sandbox:
+            sh("git -C /repo worktree remove --force %s/repo; git -C /verif worktree remove --force %s/verif; rm -rf %s" % (sb, sb, sb))
+        else:
+            sh("git checkout -- .", cwd="/repo")
     if "checks" in out:
         out.setdefault("check_history", []).append({"checks": out["checks"], "note": "earlier result"})
     out["checks"] = det
